@@ -4,6 +4,7 @@ import os
 import re
 
 import common as C
+import optsdom
 
 
 def build(ctx):
@@ -277,6 +278,7 @@ def run(ctx):
     ctx.add_summary(lsum, "stored objects before/after every request")
     ssum = share_correspondence(ctx, ctx.scale(220, 3000))
     ctx.add_summary(ssum, "requests on files that share records, real pointer graph")
+    optsdom.run(ctx, "C17")
     if lsum:
         ctx.cov["stored_object_changes_by_request"] = lsum.get("changes", {})
         ctx.cov["stored_object_change_samples"] = lsum.get("change_samples", {})
@@ -287,6 +289,8 @@ def run(ctx):
 
 
 def replay(path):
+    if optsdom.is_case(path):
+        return optsdom.replay(path)
     ok, out = C.build_harness()
     if not ok:
         print(out[-2000:])
